@@ -11,6 +11,7 @@ package anchoring
 // value x coefficient for a gain criterion, value / coefficient for a cost criterion (stated without the division).
 //@ func isBetter
 //@   property C19 C01 C09 C20
+//@   indexsafe
 //@   nopanic
 //@   ensures [gain_compares_products] criterion.Type != model.Cost ==> (result <==> (a.value * a.coefficient == b.value * b.coefficient ? a.value <= b.value : a.value * a.coefficient < b.value * b.coefficient))
 //@   ensures [cost_compares_quotients] criterion.Type == model.Cost ==> (result <==> (a.value * b.coefficient == b.value * a.coefficient ? a.value >= b.value : a.value * b.coefficient > b.value * a.coefficient))
@@ -20,6 +21,7 @@ package anchoring
 
 //@ func canNewBeBetter
 //@   property C19 C01 C09 C20
+//@   indexsafe
 //@   nopanic
 //@   ensures [zero_coefficient_never_replaces_nonzero] result <==> !(b.coefficient == 0.0 && a.coefficient != 0.0)
 
@@ -30,10 +32,12 @@ package anchoring
 //@ spec mayReplace(a valueWithCoefficient, b valueWithCoefficient) bool = !(b.coefficient == 0.0 && a.coefficient != 0.0)
 //@ func (*IdealReferenceAlternativeEvaluator).Evaluate$1
 //@   property C19 C01 C09 C20
+//@   indexsafe
 //@   nopanic
 //@   ensures [ideal_takes_the_better] result <==> (mayReplace(a, b) && notWorse(*c, a, b))
 //@ func (*NadirReferenceAlternativeEvaluator).Evaluate$1
 //@   property C19 C01 C09 C20
+//@   indexsafe
 //@   nopanic
 //@   ensures [nadir_takes_the_worse] result <==> (mayReplace(a, b) && !notWorse(*c, a, b))
 
@@ -62,6 +66,7 @@ package anchoring
 
 //@ func prepareCriteriaWithCoefficients
 //@   property C19 C01 C09 C20
+//@   indexsafe
 //@   panics_iff [no_anchoring_alternative] len(*alternatives) == 0
 //@   ensures [starts_from_the_first] fresh(result) && fresh(*result) && forall q string :: (q in *result <==> q in (*alternatives)[0].Alternative.Criteria)
 //@             && (q in *result ==> (*result)[q].value == (*alternatives)[0].Alternative.Criteria[q] && (*result)[q].coefficient == (*alternatives)[0].Coefficient)
@@ -71,6 +76,7 @@ package anchoring
 
 //@ func extractCriteriaValues
 //@   property C19 C01 C09 C20
+//@   indexsafe
 //@   nopanic
 //@   ensures [values_only] fresh(result) && result != nil && forall q string :: (q in result <==> q in *best) && (q in *best ==> result[q] == (*best)[q].value)
 //@   loop 1 invariant [ctx] fresh(result) && result != nil
@@ -84,6 +90,7 @@ package anchoring
 
 //@ func findBestCriteriaValues
 //@   property C19 C01 C09 C20
+//@   indexsafe
 //@   fnparam isBetter pure
 //@   requires len(*alternatives) >= 1 && *best != nil
 //@   requires [starts_from_anchors] forall q string :: q in *best ==> fromAnchors((*best)[q], *alternatives, q, 1)
@@ -110,6 +117,7 @@ package anchoring
 
 //@ func findBest
 //@   property C19 C01 C09 C20
+//@   indexsafe
 //@   fnparam isBetter pure
 //@   requires [positive_coefficients] forall k int :: 0 <= k && k < len(*alternatives) ==> (*alternatives)[k].Coefficient > 0.0
 //@   requires [distinct_criteria] model.distinctCriteria(*criteria)
@@ -132,10 +140,12 @@ package anchoring
 
 //@ func (*LinearAnchoringEvaluator).Evaluate
 //@   property C19 C01 C09 C20
+//@   indexsafe
 //@   ensures [linear] result == ((params.(*utils.LinearFunctionParameters).A == 0.0 && params.(*utils.LinearFunctionParameters).B == 0.0) ? 0.0
 //@             : params.(*utils.LinearFunctionParameters).A * difference + params.(*utils.LinearFunctionParameters).B)
 //@ func (*ExpFromZeroAnchoringEvaluator).Evaluate
 //@   property C19 C01 C09 C20
+//@   indexsafe
 //@   ensures [exp_from_zero] result == params.(*utils.ExpFromZeroFunction).Multiplier * exp(params.(*utils.ExpFromZeroFunction).Alpha * difference) - params.(*utils.ExpFromZeroFunction).Multiplier
 
 // mapped(d): gain(d) for a positive scaled difference, -loss(-d) otherwise (zero counts as a loss of nothing)
@@ -144,6 +154,7 @@ package anchoring
 
 //@ func calculateReferencePointDiffs
 //@   property C19 C09 C01 C20
+//@   indexsafe
 //@   requires model.distinctCriteria(*criteria)
 //@   ensures [names_the_reference_point] result.ReferencePoint == r.Id && fresh(result.Coefficients)
 //@   ensures [gain_or_negated_loss_of_scaled_difference] forall k int :: 0 <= k && k < len(*criteria) ==> (*criteria)[k].Id in result.Coefficients
@@ -160,6 +171,7 @@ package anchoring
 
 //@ func calculateDiffsPerReferencePoint
 //@   property C19 C09 C01 C20
+//@   indexsafe
 //@   requires model.distinctCriteria(*criteria)
 //@   ensures [every_alternative_against_every_point] fresh(result) && len(result) == len(alternatives) && forall ia int :: 0 <= ia && ia < len(alternatives) ==>
 //@             result[ia].Alternative == alternatives[ia] && len(result[ia].ReferencePointsDifference) == len(referencePoints)
@@ -173,6 +185,7 @@ package anchoring
 
 //@ func evaluatePerCriterionNormalizationScaleRatio
 //@   property C19 C09 C01 C20
+//@   indexsafe
 //@   requires model.distinctCriteria(*criteria)
 //@   ensures [scaled_by_the_value_range] fresh(result) && forall k int :: 0 <= k && k < len(*criteria) ==> (*criteria)[k].Id in result
 //@             && result[(*criteria)[k].Id].Scale == (result[(*criteria)[k].Id].ValuesRange.Max - result[(*criteria)[k].Id].ValuesRange.Min != 0.0 ? 1.0 / (result[(*criteria)[k].Id].ValuesRange.Max - result[(*criteria)[k].Id].ValuesRange.Min) : 0.0)
@@ -192,6 +205,7 @@ package anchoring
 
 //@ func arithmeticAverage
 //@   property C19 C01 C09 C20
+//@   indexsafe
 //@   requires len(points) >= 1 && sameKeys(points)
 //@   ensures [mean_over_reference_points] fresh(result) && fresh(*result) && forall q string :: (q in *result <==> q in points[0].Coefficients)
 //@             && (q in *result ==> (*result)[q] == old(csum(points, q, len(points))) / real(len(points)))
@@ -218,6 +232,7 @@ package anchoring
 
 //@ func (*InlineAnchoringApplier).ApplyAnchoring
 //@   property C19 C01 C09 C20
+//@   indexsafe
 //@   requires [inline_params] typeis(params, *InlineAnchoringApplierParams)
 //@   requires [diffs_per_reference_point] forall k int :: 0 <= k && k < len(*perReferencePointDiffs) ==> len((*perReferencePointDiffs)[k].ReferencePointsDifference) >= 1 && sameKeys((*perReferencePointDiffs)[k].ReferencePointsDifference)
 //@   ensures [criteria_and_parameters_pass_through] fresh(result0) && result0.Criteria == dmp.Criteria && result0.MethodParameters == dmp.MethodParameters
@@ -243,6 +258,7 @@ package anchoring
 // ---- the two reference-point strategies (C19): per criterion the coefficient-weighted best (ideal) / worst (nadir) anchor value
 //@ func (*IdealReferenceAlternativeEvaluator).Evaluate
 //@   property C19 C01 C09 C20
+//@   indexsafe
 //@   requires [positive_coefficients] forall k int :: 0 <= k && k < len(*alternatives) ==> (*alternatives)[k].Coefficient > 0.0
 //@   requires [distinct_criteria] model.distinctCriteria(*criteria)
 //@   ensures [one_point] fresh(result) && len(result) == 1 && result[0].Id == "ideal"
@@ -253,6 +269,7 @@ package anchoring
 //@                ==> !(notWorse((*criteria)[j], b, w) && !notWorse((*criteria)[j], w, b))
 //@ func (*NadirReferenceAlternativeEvaluator).Evaluate
 //@   property C19 C01 C09 C20
+//@   indexsafe
 //@   requires [positive_coefficients] forall k int :: 0 <= k && k < len(*alternatives) ==> (*alternatives)[k].Coefficient > 0.0
 //@   requires [distinct_criteria] model.distinctCriteria(*criteria)
 //@   ensures [one_point] fresh(result) && len(result) == 1 && result[0].Id == "nadir"
@@ -268,6 +285,7 @@ package anchoring
 
 //@ func normalizeCriteriaByTotalValue
 //@   property C19 C07 C09 C01 C20
+//@   indexsafe
 //@   panics_iff [no_criteria] len(criteria) == 0
 //@   assigns criteria
 //@   ensures [shifted_and_normalised] forall k int :: 0 <= k && k < len(criteria) ==> criteria[k].Criterion == old(criteria[k].Criterion)
@@ -292,12 +310,14 @@ package anchoring
 
 //@ func (*Anchoring).getAnchoringEvaluatorFunction
 //@   property C19 C20 C09 C01
+//@   indexsafe
 //@   ensures [first_with_that_name] exists k int :: 0 <= k && k < len(a.anchoringEvaluators) && result.fun == a.anchoringEvaluators[k] && evalName(result.fun) == params.Function
 //@             && forall j int :: 0 <= j && j < k ==> evalName(a.anchoringEvaluators[j]) != params.Function
 //@   loop 1 invariant [none_so_far] forall j int :: 0 <= j && j < iter ==> evalName(a.anchoringEvaluators[j]) != params.Function
 
 //@ func (*Anchoring).Apply
 //@   property C19 C09 C01 C20
+//@   indexsafe
 //@   requires model.distinctCriteria(current.Criteria)
 //@   returnhint [loss_and_gain_by_name] evalName(loss.fun) == parsedProps.Loss.Function && evalName(gain.fun) == parsedProps.Gain.Function
 //@   returnhint [all_alternatives_against_all_points] len(perReferencePointsDiffs) == len(allAlternatives) && forall ia int, ir int :: 0 <= ia && ia < len(allAlternatives) && 0 <= ir && ir < len(referencePoints) ==>
@@ -318,19 +338,23 @@ package anchoring
 //@   ensures anchMadeBy(result, self)
 //@ func parseFuncParams
 //@   property C19 C09 C20 C01
+//@   indexsafe
 //@   ensures [the_functions_own_parameter_object] anchMadeBy(result, fun)
 
 // ---- no state shared between requests (C09): every request decodes its function parameters into a new object
 //@ func (*InlineAnchoringApplier).BlankParams
 //@   property C09 C19 C01 C20
+//@   indexsafe
 //@   nopanic
 //@   ensures [new_object_each_time] typeis(result, *InlineAnchoringApplierParams) && fresh(result.(*InlineAnchoringApplierParams))
 //@ func (*LinearAnchoringEvaluator).BlankParams
 //@   property C09 C19 C01 C20
+//@   indexsafe
 //@   nopanic
 //@   ensures [new_object_each_time] typeis(result, *utils.LinearFunctionParameters) && fresh(result.(*utils.LinearFunctionParameters))
 //@ func (*ExpFromZeroAnchoringEvaluator).BlankParams
 //@   property C09 C19 C01 C20
+//@   indexsafe
 //@   nopanic
 //@   ensures [new_object_each_time] typeis(result, *utils.ExpFromZeroFunction) && fresh(result.(*utils.ExpFromZeroFunction))
 
@@ -338,6 +362,7 @@ package anchoring
 // value reported are both the bounding of mid-range + half-range x (importance-weighted sum of the mapped differences)
 //@ func addAnchoringCriteriaToAlternatives
 //@   property C19 C07 C09 C01 C20
+//@   indexsafe
 //@   requires [state] state.listener != nil && state.referenceCriterion != nil && len(state.addedCriteria) == 0
 //@             && model.validParams(*state.listener, state.methodParams) && model.coversId(*state.listener, state.methodParams, state.referenceCriterion.Id)
 //@   requires [every_alternative_against_the_same_reference_points] forall i int :: 0 <= i && i < len(*perReferencePointDiffs) ==>
@@ -361,6 +386,7 @@ package anchoring
 // starts from an empty list, so every record it hands out was created during the current application (trusted).
 //@ func (*additionalCriterionAnchoringState).newCriterion
 //@   property C19 C07 C09 C01 C20
+//@   indexsafe
 //@   fnparam .generator pure
 //@   requires [state] a.listener != nil && a.referenceCriterion != nil && 0 <= ri && ri <= len(a.addedCriteria)
 //@   requires [parameters_cover_the_reference_criterion] model.validParams(*a.listener, a.methodParams) && model.coversId(*a.listener, a.methodParams, a.referenceCriterion.Id)
@@ -376,6 +402,7 @@ package anchoring
 //@   ensures result == applierName(self)
 //@ func (*Anchoring).getAnchoringApplier
 //@   property C19 C20 C09 C01
+//@   indexsafe
 //@   ensures [first_with_that_name] exists k int :: 0 <= k && k < len(a.anchoringAppliers) && result.fun == a.anchoringAppliers[k] && applierName(result.fun) == params.Function
 //@             && forall j int :: 0 <= j && j < k ==> applierName(a.anchoringAppliers[j]) != params.Function
 //@   loop 1 invariant [none_so_far] forall j int :: 0 <= j && j < iter ==> applierName(a.anchoringAppliers[j]) != params.Function
@@ -384,6 +411,7 @@ package anchoring
 //@   ensures result == refPointsName(self)
 //@ func (*Anchoring).getReferencePointsFunction
 //@   property C19 C20 C09 C01
+//@   indexsafe
 //@   ensures [first_with_that_name] exists k int :: 0 <= k && k < len(a.referencePointsEvaluators) && result == a.referencePointsEvaluators[k] && refPointsName(result) == params.Function
 //@             && forall j int :: 0 <= j && j < k ==> refPointsName(a.referencePointsEvaluators[j]) != params.Function
 //@   loop 1 invariant [none_so_far] forall j int :: 0 <= j && j < iter ==> refPointsName(a.referencePointsEvaluators[j]) != params.Function
@@ -391,6 +419,7 @@ package anchoring
 // the anchoring alternatives with their coefficients, looked up among all known alternatives, in the order given
 //@ func fetchAnchoringAlternativesWithCriteria
 //@   property C19 C09 C01 C20
+//@   indexsafe
 //@   ensures [in_request_order_with_coefficients] result != nil && fresh(result) && len(*result) == len(*anchoringAlternatives) && forall k int :: 0 <= k && k < len(*anchoringAlternatives) ==>
 //@             (*result)[k].Coefficient == (*anchoringAlternatives)[k].Coefficient && (*result)[k].Alternative.Id == (*anchoringAlternatives)[k].Alternative
 //@             && exists j int :: 0 <= j && j < len(*alternatives) && (*result)[k].Alternative == (*alternatives)[j]
@@ -401,6 +430,7 @@ package anchoring
 // every criterion gets the configured bounding (bound to a range) next to its own scale
 //@ func matchScalingWithBounding
 //@   property C19 C09 C01 C20
+//@   indexsafe
 //@   ensures [per_criterion] fresh(result) && forall c string :: (c in result <==> c in scaling) && (c in scaling ==> result[c].scaling == scaling[c] && result[c].bounding != nil && result[c].bounding.bounding == bounding)
 //@   loop 1 invariant [ctx] fresh(result) && result != nil
 //@   loop 1 invariant [done] forall c string :: seen(c) ==> c in result && result[c].scaling == scaling[c] && result[c].bounding != nil && result[c].bounding.bounding == bounding
@@ -411,18 +441,21 @@ package anchoring
 // the registered object holds exactly the collaborators it was built with, each in its own role
 //@ func NewNewCriterionAnchoringApplier
 //@   property C19 C09 C07
+//@   indexsafe
 //@   nopanic
 //@   ensures [wired_as_given] result != nil && fresh(result) && result.generator == generator && result.referenceCriterionManager == referenceCriterionManager
 
 // the registered object holds exactly the collaborators it was built with, each in its own role
 //@ func NewAnchoring
 //@   property C19 C09
+//@   indexsafe
 //@   nopanic
 //@   ensures [wired_as_given] result != nil && fresh(result) && result.anchoringEvaluators == anchoringEvaluators && result.referencePointsEvaluators == referencePointsEvaluators && result.anchoringAppliers == anchoringAppliers
 
 // ---- the newCriterion applier's wiring (C19): which criterion is the reference, whose range and bounding the added values take
 //@ func (*NewCriterionAnchoringApplier).ApplyAnchoring
 //@   property C19 C07 C09 C01 C20
+//@   indexsafe
 //@   requires [state_well_formed] model.distinctCriteria(dmp.Criteria) && len(dmp.Criteria) > 0 && model.validParams(*listener, dmp.MethodParameters) && model.coversAll(*listener, dmp.MethodParameters, dmp.Criteria)
 //@   requires [every_alternative_against_the_same_reference_points] forall i int :: 0 <= i && i < len(*perReferencePointDiffs) ==>
 //@             len((*perReferencePointDiffs)[i].ReferencePointsDifference) == len((*perReferencePointDiffs)[0].ReferencePointsDifference)
@@ -490,39 +523,46 @@ package anchoring
 // ---- registered names (what a request must say to select this object; what error messages list)
 //@ func (*Anchoring).Identifier
 //@   property C19 C20 C01 C03 C04 C05 C06 C07 C08 C09 C11 C12 C13 C14 C15 C16 C17 C18
+//@   indexsafe
 //@   nopanic
 //@   ensures [name] result == "anchoring"
 
 // ---- registered names (what a request must say to select this object; what error messages list)
 //@ func (*IdealReferenceAlternativeEvaluator).Identifier
 //@   property C19 C20 C01 C03 C04 C05 C06 C07 C08 C09 C11 C12 C13 C14 C15 C16 C17 C18
+//@   indexsafe
 //@   nopanic
 //@   ensures [name] result == "ideal"
 //@ func (*NadirReferenceAlternativeEvaluator).Identifier
 //@   property C19 C20 C01 C03 C04 C05 C06 C07 C08 C09 C11 C12 C13 C14 C15 C16 C17 C18
+//@   indexsafe
 //@   nopanic
 //@   ensures [name] result == "nadir"
 
 // ---- registered names (what a request must say to select this object; what error messages list)
 //@ func (*InlineAnchoringApplier).Identifier
 //@   property C19 C20 C01 C03 C04 C05 C06 C07 C08 C09 C11 C12 C13 C14 C15 C16 C17 C18
+//@   indexsafe
 //@   nopanic
 //@   ensures [name] result == "inline"
 
 // ---- registered names (what a request must say to select this object; what error messages list)
 //@ func (*NewCriterionAnchoringApplier).Identifier
 //@   property C07 C19 C20 C01 C03 C04 C05 C06 C08 C09 C11 C12 C13 C14 C15 C16 C17 C18
+//@   indexsafe
 //@   nopanic
 //@   ensures [name] result == "newCriterion"
 
 //@ func addedCriterionName
 //@   property C19 C07 C09 C01 C20
+//@   indexsafe
 //@   ensures [prefix_plus_reference_point_then_count] result == (model.cntp(*criteria, "__anchoring_criterion_" + refPointDif, len(*criteria)) == 0 ? "__anchoring_criterion_" + refPointDif
 //@             : "__anchoring_criterion_" + refPointDif + itoa(model.cntp(*criteria, "__anchoring_criterion_" + refPointDif, len(*criteria))))
 
 // ---- the reference points are what the evaluator named in the request makes of the request's anchoring alternatives
 //@ func (*Anchoring).evaluateAnchoringAlternatives
 //@   property C19 C09 C01 C20
+//@   indexsafe
 //@   returnhint [named_evaluator_on_the_requests_anchors] refPointsName(referencePointsEvaluator) == parsedProps.ReferencePoints.Function
 //@             && len(*anchoringAlternatives) == len(parsedProps.AnchoringAlternatives)
 //@             && forall k int :: 0 <= k && k < len(*anchoringAlternatives) ==> (*anchoringAlternatives)[k].Alternative.Id == parsedProps.AnchoringAlternatives[k].Alternative
@@ -530,18 +570,22 @@ package anchoring
 //@   ensures [some_points] true
 //@ func (*Anchoring).knownAnchoringEvaluatorsNames
 //@   property C19 C20 C09 C01
+//@   indexsafe
 //@   ensures [names] fresh(result) && len(result) == len(a.anchoringEvaluators) && forall k int :: 0 <= k && k < len(a.anchoringEvaluators) ==> result[k] == evalName(a.anchoringEvaluators[k])
 //@   loop 1 invariant [so_far] fresh(existing) && len(existing) == len(a.anchoringEvaluators) && forall k int :: 0 <= k && k < iter ==> existing[k] == evalName(a.anchoringEvaluators[k])
 //@ func (*Anchoring).knownReferencePointsEvaluatorsNames
 //@   property C19 C20 C09 C01
+//@   indexsafe
 //@   ensures [names] fresh(result) && len(result) == len(a.referencePointsEvaluators) && forall k int :: 0 <= k && k < len(a.referencePointsEvaluators) ==> result[k] == refPointsName(a.referencePointsEvaluators[k])
 //@   loop 1 invariant [so_far] fresh(existing) && len(existing) == len(a.referencePointsEvaluators) && forall k int :: 0 <= k && k < iter ==> existing[k] == refPointsName(a.referencePointsEvaluators[k])
 //@ func (*Anchoring).knownAnchoringAppliersNames
 //@   property C19 C20 C09 C01
+//@   indexsafe
 //@   ensures [names] fresh(result) && len(result) == len(a.anchoringAppliers) && forall k int :: 0 <= k && k < len(a.anchoringAppliers) ==> result[k] == applierName(a.anchoringAppliers[k])
 //@   loop 1 invariant [so_far] fresh(existing) && len(existing) == len(a.anchoringAppliers) && forall k int :: 0 <= k && k < iter ==> existing[k] == applierName(a.anchoringAppliers[k])
 
 //@ func (*NewCriterionAnchoringApplier).BlankParams
 //@   property C09 C19 C07 C01 C20
+//@   indexsafe
 //@   nopanic
 //@   ensures [new_object_each_time] typeis(result, *utils.Map) && fresh(result.(*utils.Map))
